@@ -353,6 +353,50 @@ def fam_g_helper_list_with_updated():
     return FamilySpec(nm, ["C08", "C05", "C06", "C07", "C09", "C17"], run, functions=["utilities.list_with_updated_entry_at"])
 
 
+def fam_g_helper_first_match():
+    """utilities.first_match_by_predicate(entries, predicate) for a list of any length and any
+    predicate: None iff no entry satisfies it, else the first index that does and its entry."""
+    nm = "utilities.first_match_by_predicate[any length]"
+
+    def run(prog, tier):
+        from ..gmode import SList, IndexedItem
+        from ..values import Builtin
+        fd = prog.func("utilities.first_match_by_predicate")
+
+        def setup(I):
+            I.ghost["inline_helper"] = fd.qualname
+            k = z3.Int("k")
+            I.path.assume(k >= 0)
+            P = z3.Function("P!first", z3.IntSort(), z3.BoolSort())
+            I.ghost["first_match_P"] = P
+            sl = SList(k, lambda t: IndexedItem(t), "entries")
+            # enumerate() needs a family-less list of opaque items
+            pred = Builtin("predicate", lambda a, kw: P(a[0].idx))
+            I.ghost.update({"k": k, "P": P})
+            return lambda: I.call_funcdef(fd, [sl, pred], {})
+
+        def post(I, res, emit):
+            P, k = I.ghost["P"], I.ghost["k"]
+            if res.outcome[0] != "ret":
+                emit("no-exception", ["C17"], z3.BoolVal(False), info=f"{H.exc_kind(res.outcome[1])} at {res.outcome[2]}")
+                return
+            r = res.outcome[1]
+            s_ = z3.Int("s!post")
+            qm(I).add_index(s_, k)
+            if r is None:
+                emit("None=>no-entry-matches", ["C08"], z3.Implies(z3.And(s_ >= 0, s_ < k), z3.Not(P(s_))))
+                return
+            ok = isinstance(r, tuple) and len(r) == 2 and is_num(r[0]) and isinstance(r[1], IndexedItem)
+            emit("returns-index-and-entry", ["C17", "C08"], z3.BoolVal(ok))
+            if not ok:
+                return
+            i = num_term(r[0])
+            emit("index-in-range-and-matches", ["C08"], z3.And(i >= 0, i < k, P(i), r[1].idx == i))
+            emit("first-match", ["C08"], z3.Implies(z3.And(s_ >= 0, s_ < i), z3.Not(P(s_))))
+        return H.run_family(prog, nm, setup, post)
+    return FamilySpec(nm, ["C08", "C05", "C06", "C07", "C09", "C17"], run, functions=["utilities.first_match_by_predicate"])
+
+
 def fam_g_helper_partition():
     """utilities.partition_by_predicate(entries, predicate) for a list of any length and any
     predicate of the entry: the two returned lists are the hits and the misses in order
@@ -408,7 +452,7 @@ def specs(prog, tier):                                    # noqa: F811
     out += [fam_g_numeric_partial(add), fam_g_compute_numeric_partials(add)]
     mul = prog.classes["Multiply"]
     out += [fam_g_compute_numeric_partials(mul), fam_g_numeric_partial(mul)]
-    out += [fam_g_helper_multiply(), fam_g_helper_list_without(), fam_g_helper_partition(), fam_g_helper_list_with_updated()]
+    out += [fam_g_helper_multiply(), fam_g_helper_list_without(), fam_g_helper_partition(), fam_g_helper_list_with_updated(), fam_g_helper_first_match()]
     return out
 
 
@@ -704,7 +748,8 @@ G_REDUCERS = [("Multiply", "_reduce_product_when_multiplying_by_zero"), ("Multip
               ("Add", "_reduce_sum_by_eliminating_zeros"),
               ("Multiply", "_reduce_product_by_consolidating_constants"), ("Add", "_reduce_sum_by_consolidating_constants"),
               ("Multiply", "_reduce_product_by_eliminating_negations"),
-              ("Add", "_normalize_fully_reduced")]
+              ("Add", "_normalize_fully_reduced"),
+              ("Add", "_reduce_by_flattening_nested_sums"), ("Multiply", "_reduce_by_flattening_nested_products")]
 # (Multiply._normalize_fully_reduced goes through with the same machinery plus the reciprocal-product
 #  lemma, but its quotient obligations are decided erratically by the solvers - proved in 2 s in one
 #  process, unknown after 80 s in the next - so it stays with the bounded-arity families)
